@@ -10,6 +10,7 @@ import seqengine as se
 def run_runner(exe, out, scenario, mode_args, timeout=900):
     env = dict(os.environ)
     env["ASAN_OPTIONS"] = "detect_leaks=0:abort_on_error=0:exitcode=99"
+    env["TSAN_OPTIONS"] = "exitcode=66:halt_on_error=1:second_deadlock_stack=1:suppressions=" + os.path.join(HARNESS, "tsan.supp")
     errf = out + ".err"
     with open(errf, "w") as fe:
         try:
@@ -147,7 +148,7 @@ def run_conc(pid, tier, seed, plan):
             transitions += res.generated
             model_notes.append({"model": m["module"], "config": m["tag"], "distinct_states": res.distinct, "transitions": res.generated, "tlc_wall_s": round(res.wall, 1)})
             log("%s model %s/%s: %d states, %d transitions (%.1fs)" % (pid, m["module"], m["tag"], res.distinct, res.generated, res.wall))
-        runners = plan.get("runners") or [plan["runner"]]
+        runners = list(plan.get("runners") or [plan["runner"]])
         exes = build_many([dict(source=r["source"], defines=r.get("defines", ()), sanitize=r.get("sanitize", True), name=r["name"]) for r in runners])
         exe = exes[0]
         # model sensitivity + corpus of counterexample schedules replayed on the real code
@@ -170,6 +171,16 @@ def run_conc(pid, tier, seed, plan):
             nr = sc.get("rand", 300 if quick else 5000)
             if nr:
                 tasks.append((sc["scenario"], ["rand", seed * 1000 + i, nr], "s%02d-rnd" % i, ri))
+        # uncontrolled stress with the shipped mutex policies under ThreadSanitizer
+        stress = plan.get("stress_runners") or []
+        sexes = build_many([dict(source=r["source"], defines=r.get("defines", ()), sanitize="thread", name=r["name"], opt="-O1") for r in stress]) if stress else []
+        base = len(exes)
+        exes = exes + sexes
+        runners = runners + stress
+        for i, sc in enumerate(plan.get("stress_scenarios", [])):
+            for j in range(len(sexes)):
+                if (i + j) % max(1, sc.get("every", 1)) == 0:
+                    tasks.append((sc["scenario"], ["stress", seed * 100 + i, sc.get("count", 150 if quick else 3000)], "x%02d-%d" % (i, j), base + j))
 
         def work(t):
             r = explore_scenario(exes[t[3]], t[0], t[1], plan["trace_module"], wd, t[2])
